@@ -4,12 +4,11 @@ import dv, taskset_common as T
 META = {
     'category': 'proof',
     'technique': 'Coq invariant (licences) over all interleavings of the task-set step model + regenerated decision trees with contract lemmas + decisions of the real code under forced pool load + lockstep replay',
-    'text': 'C04_refuted proves the property FALSE of the code as written: the second inline fallback of ConcurrentTaskSet::schedule / schedulePlaced (pool overloaded, !skipRecheck, '
-            'canInlineSchedule) calls f() without consulting canceled() (known finding, decision-level and lockstep witnesses replayed on the real code every run). '
-            'C04_holds_except: at every other body call site (TaskSet::schedule inline and queued, packaged wrappers wherever they run, first inline path, bulk invokeInline) the thread '
-            'holds a canceled_ load that read false and precedes the first canceled_ := true store of the set (cancel(), parent cascade, exception-triggered), for all interleavings. '
-            'Decision lemmas on the REGENERATED code: TaskSet::schedule reaches the functor only if canceled() read false; the ConcurrentTaskSet overloads call the raw functor on a '
-            'cancelled set iff c04_domain.',
+    'text': 'C04_no_body_after_cancel (unrestricted): at every body call site (TaskSet::schedule inline and queued, packaged wrappers wherever they run, both inline paths of '
+            'ConcurrentTaskSet::schedule / schedulePlaced, bulk invokeInline) the thread holds a canceled_ load that read false and precedes the first canceled_ := true store of the set '
+            '(cancel(), parent cascade, exception-triggered), for all interleavings. Decision lemmas on the REGENERATED code for all sites: the raw functor is reached only if canceled() read '
+            'false; on a cancelled set the decision is skip or queue-the-packaged-wrapper. The former finding (second inline fallback ignored canceled()) is repaired in /repo; its '
+            'decision-level and lockstep witnesses are regression Examples in Coq and regression cases replayed first on the real code every run.',
     'note': T.NOTE,
 }
 ASSUMPTIONS = T.ASSUME + ['"after cancel" is made precise as: the canceled_ load that licensed the body precedes the cancel store (a body whose licence was obtained before the store may still start after cancel() returned)']
@@ -19,18 +18,12 @@ def run(ctx):
     exe = T.prove_and_build(ctx, 'C04')
 
     def on_l(v, c, p, o):
-        if v == 4:
-            ctx.violation('body started at the second inline fallback after the cancel store: ' + o[:300], {'finding_key': T.KEY_C04, 'case': T.case_line(c)})
-        else:
-            ctx.violation('a task body of a cancelled set started without a licensing canceled_ load preceding the cancel store: %s -> %s' % (T.case_line(c)[:300], o[:400]),
-                          {'case': T.case_line(c), 'output': o, 'cmd': 'echo "<case>" | build/harness/h_taskset-*'})
+        ctx.violation('a task body of a cancelled set started without a licensing canceled_ load preceding the cancel store: %s -> %s' % (T.case_line(c)[:300], o[:400]),
+                      {'case': T.case_line(c), 'output': o, 'cmd': 'echo "<case>" | build/harness/h_taskset-*'})
 
     def on_d(v, d, vals, o):
-        if v == 4:
-            ctx.violation('cancelled ConcurrentTaskSet ran the functor inline (pool overloaded): ' + o, {'finding_key': T.KEY_C04, 'case': T.d_line(d)})
-        else:
-            ctx.violation('a cancelled set ran a functor: %s -> %s' % (T.d_line(d), o), {'case': T.d_line(d), 'output': o, 'cmd': 'echo "<case>" | build/harness/h_taskset-*'})
-    # deterministic witnesses of the known finding first
+        ctx.violation('a cancelled set ran a functor: %s -> %s' % (T.d_line(d), o), {'case': T.d_line(d), 'output': o, 'cmd': 'echo "<case>" | build/harness/h_taskset-*'})
+    # regression cases (witnesses of the repaired finding) first
     T.decision_phase(ctx, exe, 'judge_C04_d', 60 if ctx.quick else 1500, witnesses=[T.witness_d_c04()], on_verdict=on_d)
     T.lockstep_phase(ctx, exe, 'judge_C04', ['cancel', 'cancel', 'mixed', 'exc'], 80 if ctx.quick else 3000, witnesses=[T.witness_c04()], on_verdict=on_l)
-    ctx.cov['known_finding_witnesses'] = ['D: ' + T.d_line(T.witness_d_c04()), 'L: ' + T.case_line(T.witness_c04())[:120]]
+    ctx.cov['regression_cases'] = ['D: ' + T.d_line(T.witness_d_c04()), 'L: ' + T.case_line(T.witness_c04())[:120]]
